@@ -68,8 +68,8 @@ type world struct {
 	lmu          sync.Mutex
 	libConns     []*netsim.Conn
 	libListeners []*recListener
-	lateAccept   atomic.Bool // see recListener.Accept
-	realTime     bool        // the check does not run in a synctest bubble
+	lateAccept   atomic.Bool  // see recListener.Accept
+	realTime     bool         // the check does not run in a synctest bubble
 	slow         atomic.Int64 // ns by which the dial / listen seams return late (0: at once)
 }
 
